@@ -20,6 +20,12 @@ CHECKS = {
         note="Trusts gcc 12 for implementation-defined behaviour and the model in vlib/model_expr.py (gcc-validated each run); UB and gcc-diagnosed expressions are excluded.",
         ref="2 C02",
     ),
+    "C03": dict(
+        technique="property-based testing: Hypothesis macro tables x invocation lines; differential against gcc -E and clang -E (both must accept silently and agree); watchdog for termination",
+        text="Generated-input search over macro tables (object-/function-like, variadic, #, ## chains, nested/mutual/self reference) and invocation lines (empty and nested arguments, names without parentheses, results applied to following tokens). CBI's token stream from MacroExpander.expand is compared token by token with gcc's (re-tokenised by a reference pp-tokeniser); the truth of `#if (INV)`, computed #include and the -D form of the same table are compared as well; each expansion runs under a watchdog. Failures are minimised by batched delta debugging through the compilers. Bounded exploration; termination is checked with a time bound, not proved.",
+        note="Trusts gcc 12 and clang 14 agreeing silently as the definition of the conforming expansion; cases either of them diagnoses are excluded.",
+        ref="2 C03",
+    ),
     "C04": dict(
         technique="property-based testing: Hypothesis multi-directory include trees vs reference search-rule model, differential against gcc -E",
         text="Generated-input search over multi-directory trees with same-named headers, quote/angle/computed includes, guards and #pragma once, crossed with random -I/-isystem orders, -D sets and -include, fed through codebasin's own argument parser. Expected per-line platform sets of every code-base file come from a memo-free model of the documented search rules; gcc -E with the same flags validates the model on marker lines. Bounded exploration.",
